@@ -14,6 +14,7 @@ l <id>                                                   -> l <size>
 c <id> [| tokens]                                        -> c <err>
 dump                                                     -> alloc=[sorted] dfree=<0|1> files=[size|x,...]
 secs <id>                                                -> sector list (debugging only)
+off <sector> <sectorSizeBytes> <offsetWithinSector>      -> toDeviceOffset as int64 (fixed-width model)
 ```
 Oracle tokens: `A<first>:<count>` / `AF` (answers of `AllocateContiguous`, in call
 order), `DW<k>:<n>` (k-th device write stores n bytes and fails), `DR<k>:<n>:<s>`,
@@ -143,6 +144,12 @@ def step (st : State) (ws : List String) : State × String :=
     match ss.toNat?, nsec.toNat? with
     | some ss, some nsec => (init { ss, nsec }, "ok")
     | _, _ => (st, "bad-op")
+  | ["off", sector, ss, ow] =>
+    -- toDeviceOffset with the machine types of the Go code (signed reading of the int64 result)
+    match sector.toNat?, ss.toNat?, ow.toNat? with
+    | some sector, some ss, some ow =>
+      (st, toString (toDeviceOffset (BitVec.ofNat 32 sector) (BitVec.ofNat 64 ss) (BitVec.ofNat 64 ow)).toInt)
+    | _, _, _ => (st, "bad-op")
   | ["dump"] => (st, dump st)
   | ["secs", i] =>
     match i.toNat? with
